@@ -315,9 +315,9 @@ Proof.
     destruct Hnth as [Hname Hcore]. cbn [wf_op] in Hwf.
     pose proof (inv_path _ _ _ HI) as Hpaths. rewrite Forall_forall in Hpaths.
     destruct (Hpaths sn Hsn) as (Hp & Hnd & Hwi & Hlt).
-    unfold do_log. rewrite Hcore, (kenabled_expect root hi _ _ (inv_root _ _ _ HI) _ Hp).
-    destruct (senabled hi root).
-    + destruct (klog_expect root hi (lname lg) msg w fs Hwf Hwr (items sn) (sto s) (smarks ss) Hwi Hnd (inv_root _ _ _ HI) Hp)
+    unfold do_log. rewrite Hcore, kenabled_expect.
+    destruct (senabled hi root) eqn:Hen.
+    + destruct (klog_expect root hi (lname lg) msg w fs Hwf Hwr Hen (items sn) (sto s) (smarks ss) Hwi Hnd (inv_root _ _ _ HI) Hp)
         as (sg' & E & Hroot' & Hpath' & Hfr).
       rewrite E, Hname. fold (log_marks hi root (items sn)).
       destruct (swalk _ hi (path_name (segs sn)) msg w fs root (items sn) false) as [[c1 w1] n1]. cbn [fst snd].
